@@ -467,7 +467,8 @@ impl<'r> Gen<'r> {
                 }
                 if self.mistake(self.cfg.allow.unknown, 8) {
                     let form = if self.rng.pct(50) {
-                        Form::NV(Value::Str("no_such_variant".into()))
+                        // names no variant - also as an empty string, with a non-ASCII first character, in Rust spelling
+                        Form::NV(Value::Str(self.rng.pick(&["no_such_variant", "no_such_variant", "", "\u{e9}mile", "NoSuchVariant", " ", "\u{20ac}"]).to_string()))
                     } else {
                         let inner = self.item("no_such_variant", Form::Word);
                         Form::List(vec![Nested::Item(inner)])
